@@ -216,7 +216,13 @@ def execute(case, stats, log):
         if ev["ev"] == "compute_many":
             # (c) merge check: computed together == computed separately
             for v, val in zip(out["vars"], out["values"]):
-                alone = m.compute(m.pool[v], dict(ev, policy="fifo"))
+                try:
+                    alone = m.compute(m.pool[v], dict(ev, policy="fifo"))
+                except Violation:
+                    raise
+                except Exception:  # noqa: BLE001 -- an entry point that raises is C05's matter
+                    stats["unclaimed.raised"] = stats.get("unclaimed.raised", 0) + 1
+                    continue
                 r = same_value(val, alone)
                 stats["merge_checks"] = stats.get("merge_checks", 0) + 1
                 if r:
@@ -236,3 +242,18 @@ def execute(case, stats, log):
 
 
 candidates = c09.candidates
+
+
+def finding_matches(case, result, fd):
+    if fd["id"] == "F15":
+        if result.get("cls") != "same-name-different-structure":
+            return False
+        keys = ("array.unify-chunks-policy", "array.unify-chunks-limit")
+        if not any(e["ev"] == "config" and e.get("key") in keys for e in case["history"]):
+            return False
+        from ..worker import exec_case
+        import sys
+
+        abl = dict(case, history=[e for e in case["history"] if not (e["ev"] == "config" and e.get("key") in keys)])
+        return exec_case(sys.modules[__name__], abl)["status"] == "ok"
+    return False
